@@ -91,11 +91,12 @@ def errName : Err → String
   | .invalidStaticIndex => "InvalidStaticIndex"
   | .missingRefs _ => "MissingRefs"
   | .badBaseIndex => "BadBaseIndex"
+  | .prefixOverflow => "InvalidInteger(Overflow)"
 
 /-- how the calling layer wraps the table's error (`DecoderError::DynamicTable`, `EncoderError::Insertion`) -/
 def wrapErr (layer : String) (e : Err) : String :=
   match e with
-  | .invalidStaticIndex | .badBaseIndex | .missingRefs _ => errName e
+  | .invalidStaticIndex | .badBaseIndex | .prefixOverflow | .missingRefs _ => errName e
   | _ => s!"{layer}({errName e})"
 
 /-! ### monitors (the property's state invariants, evaluated on the model state; the Rust
